@@ -228,6 +228,10 @@ func (epc *EpochsContext) RotateEpochs(state BeaconState) error {
 	if err := epc.loadCurrentStake(state, indicesBounded); err != nil {
 		return err
 	}
+	// The state may be wrapped (e.g. to upgrade between forks), look at the actual state for its sync committees.
+	if wrapped, ok := state.(interface{ Unwrap() BeaconState }); ok {
+		state = wrapped.Unwrap()
+	}
 	if syncState, ok := state.(SyncCommitteeBeaconState); ok {
 		// if the state has a list of sync committee pubkeys, we want to cache the indices of that sync committee
 		if epc.CurrentEpoch.Epoch%epc.Spec.EPOCHS_PER_SYNC_COMMITTEE_PERIOD == 0 {
